@@ -18,9 +18,10 @@ Transliteration rules
     shared object: `itertools.count` never repeats);
   * `_entry_map` (insertion-ordered dict) is an association list with unique keys
     in dict order, value = the shared entry's `(priority, count)`;
-  * `heapq` is not modelled: a backend is a record of operations (`Backend`);
-    `listHeap` is the executable stand-in "bag with extract-min" used by the driver.
-    The theorems hold for every backend satisfying the min-queue laws (`Lawful`).
+  * a backend is a record of operations (`Backend`); the theorems hold for every backend
+    satisfying the min-queue laws (`Lawful`).  `binHeap` is `heapq` itself (heappush / heappop
+    with their sift loops, on a list), `listHeap` a trivially correct "bag with extract-min";
+    the driver runs both.
 Core Lean only.
 -/
 namespace C10
@@ -194,6 +195,74 @@ def listHeap [DecidableEq T] : Backend T (List (Entry T)) where
     | some m => some (m, h.erase m)
   mark := fun c h => h.map (markEntry c)
 
+/-! ## heapq: the binary heap HeapPriorityQueue runs on
+
+Transliteration of `heapq.heappush` / `heapq.heappop` with `_siftdown` / `_siftup` on a Python list,
+as written: the travelling item is kept in a local (`newitem`), parents / children are copied into
+the hole and `newitem` is written back once at the end.  `startpos` is always `0` for the two entry
+points.  (`Heap.lean` proves these loops equal to a swapping formulation, on which the invariants
+are stated.) -/
+section Heap
+variable {α : Type}
+
+/-- the loop of `_siftdown(heap, 0, pos)` and the final `heap[pos] = newitem`; `x` is `newitem` -/
+def siftDownLoop (lt : α → α → Bool) : Nat → List α → α → Nat → List α
+  | 0, h, x, pos => h.set pos x
+  | fuel + 1, h, x, pos =>
+    if pos = 0 then h.set pos x else
+    match h[(pos - 1) / 2]? with
+    | some p => if lt x p then siftDownLoop lt fuel (h.set pos p) x ((pos - 1) / 2) else h.set pos x
+    | none => h.set pos x
+
+/-- the child `_siftup` follows: the right one if it exists and the left one is not smaller -/
+def smallerChild (lt : α → α → Bool) (h : List α) (pos : Nat) : Nat :=
+  match h[2 * pos + 1]?, h[2 * pos + 2]? with
+  | some l, some r => if lt l r then 2 * pos + 1 else 2 * pos + 2
+  | _, _ => 2 * pos + 1
+
+/-- the first loop of `_siftup(heap, pos)`: `heap[pos] = heap[childpos]; pos = childpos` down to a
+    leaf; returns the list (with a stale item in the hole) and the leaf position -/
+def siftLeafLoop (lt : α → α → Bool) : Nat → List α → Nat → List α × Nat
+  | 0, h, pos => (h, pos)
+  | fuel + 1, h, pos =>
+    if 2 * pos + 1 < h.length then
+      match h[smallerChild lt h pos]? with
+      | some y => siftLeafLoop lt fuel (h.set pos y) (smallerChild lt h pos)
+      | none => (h, pos)
+    else (h, pos)
+
+/-- `_siftup(heap, 0)`: `newitem = heap[0]`, down to a leaf, `heap[pos] = newitem`, `_siftdown(heap, 0, pos)` -/
+def pySiftUp (lt : α → α → Bool) (h : List α) : List α :=
+  match h[0]? with
+  | none => h
+  | some x =>
+    siftDownLoop lt ((siftLeafLoop lt h.length h 0).2 + 1) (siftLeafLoop lt h.length h 0).1 x
+      (siftLeafLoop lt h.length h 0).2
+
+/-- `heappush(heap, item)`: `heap.append(item); _siftdown(heap, 0, len(heap) - 1)` -/
+def heappush (lt : α → α → Bool) (x : α) (h : List α) : List α :=
+  siftDownLoop lt (h.length + 1) (h ++ [x]) x h.length
+
+/-- `heappop(heap)`; `none` = IndexError (empty heap) -/
+def heappop (lt : α → α → Bool) (h : List α) : Option (α × List α) :=
+  match h.getLast? with
+  | none => none
+  | some last =>
+    match h.dropLast with
+    | [] => some (last, [])
+    | first :: rest => some (first, pySiftUp lt (last :: rest))
+
+end Heap
+
+/-- HeapPriorityQueue: a Python list + `heappush` / `heappop` -/
+def binHeap : Backend T (List (Entry T)) where
+  empty := []
+  size := List.length
+  front := fun h => h[0]?
+  push := heappush Entry.lt
+  popFront := heappop Entry.lt
+  mark := fun c h => h.map (markEntry c)
+
 /-- `_entry_map` values: `(priority, count)` of the shared entry -/
 abbrev EMap (T : Type) := List (T × Int × Nat)
 
@@ -324,6 +393,97 @@ def PQ.runFrom (s : PQ T β) : List (Op T) → PQ T β × List (Out T)
 def PQ.run (ops : List (Op T)) : PQ T β × List (Out T) := PQ.runFrom B (PQ.init B) ops
 
 end Queue
+
+/-! ## priority arguments: the default `priority_key` (`-float(priority or 0)`), evaluated exactly
+
+Every finite double is a dyadic rational `m / 2^e` (`float.as_integer_ratio`), so the key can be
+computed without floating point: the harness hands the driver the priority AS PASSED to `add`
+(`None`, a bool, an int, or the exact dyadic value of a float) and the model evaluates
+`float(priority or 0)` itself.  A history's priorities are then scaled by a common power of two,
+which turns them into the integers `Op.add` carries. -/
+
+/-- a priority as `add` receives it -/
+inductive PyPrio where
+  | none                        -- `None` (also: argument left out)
+  | bool (b : Bool)
+  | int (n : Int)
+  | float (m : Int) (e : Nat)   -- the finite float `m / 2^e`
+deriving Repr, DecidableEq
+
+/-- Python truthiness (`priority or 0` keeps a truthy value, replaces a falsy one by `0`) -/
+def PyPrio.truthy : PyPrio → Bool
+  | .none => false
+  | .bool b => b
+  | .int n => decide (n ≠ 0)
+  | .float m _ => decide (m ≠ 0)
+
+/-- `priority or 0` -/
+def PyPrio.or0 (p : PyPrio) : PyPrio := if p.truthy then p else .int 0
+
+/-- CPython's `int → float` for `n < 2^1024`: 53 significant bits, round half to even -/
+def roundNat53 (n : Nat) : Nat :=
+  if n < 2 ^ 53 then n else
+    (if 2 ^ (n.log2 + 1 - 53 - 1) < n % 2 ^ (n.log2 + 1 - 53) ∨
+        (n % 2 ^ (n.log2 + 1 - 53) = 2 ^ (n.log2 + 1 - 53 - 1) ∧ (n / 2 ^ (n.log2 + 1 - 53)) % 2 = 1)
+      then n / 2 ^ (n.log2 + 1 - 53) + 1 else n / 2 ^ (n.log2 + 1 - 53)) * 2 ^ (n.log2 + 1 - 53)
+
+def roundInt53 (n : Int) : Int :=
+  if n < 0 then -((roundNat53 n.natAbs : Nat) : Int) else ((roundNat53 n.natAbs : Nat) : Int)
+
+/-- the dyadic rational `m / 2^e` -/
+structure Dy where
+  m : Int
+  e : Nat
+deriving Repr, DecidableEq
+
+/-- `float(x)` for `x` a bool / int / float (`float(None)` is a TypeError; never reached after `or 0`) -/
+def PyPrio.toFloat : PyPrio → Dy
+  | .none => ⟨0, 0⟩
+  | .bool b => ⟨if b then 1 else 0, 0⟩
+  | .int n => ⟨roundInt53 n, 0⟩
+  | .float m e => ⟨m, e⟩
+
+/-- the effective priority `float(priority or 0)` (the stored key is its negation) -/
+def PyPrio.eff (p : PyPrio) : Dy := p.or0.toFloat
+
+def Dy.neg (d : Dy) : Dy := ⟨-d.m, d.e⟩
+
+/-- `d * 2^K` as an integer (exact when `d.e ≤ K`) -/
+def Dy.scale (K : Nat) (d : Dy) : Int := d.m * 2 ^ (K - d.e)
+
+/-- exact order of two dyadic rationals: `m₁/2^e₁ < m₂/2^e₂` -/
+def Dy.lt (a b : Dy) : Prop := a.m * 2 ^ b.e < b.m * 2 ^ a.e
+
+instance (a b : Dy) : Decidable (Dy.lt a b) := by unfold Dy.lt; exact inferInstance
+
+/-- a history whose `add`s carry priorities of an arbitrary type `P` -/
+inductive ROp (T P : Type) where
+  | add (t : T) (p : P)
+  | remove (t : T)
+  | pop (dflt : Option Nat)
+  | peek (dflt : Option Nat)
+  | len
+deriving Repr
+
+/-- interpret the priorities by `f` -/
+def ROp.toOp {T P : Type} (f : P → Int) : ROp T P → Op T
+  | .add t p => .add t (f p)
+  | .remove t => .remove t
+  | .pop d => .pop d
+  | .peek d => .peek d
+  | .len => .len
+
+/-- the priorities occurring in a history -/
+def ROp.prios {T P : Type} : List (ROp T P) → List P
+  | [] => []
+  | .add _ p :: ops => p :: ROp.prios ops
+  | _ :: ops => ROp.prios ops
+
+/-- the largest exponent among a history's dyadic priorities -/
+def maxExp {T : Type} (ops : List (ROp T Dy)) : Nat := ((ROp.prios ops).map Dy.e).foldr max 0
+
+/-- what the driver runs: the history with every priority scaled by `2^maxExp` -/
+def normalize {T : Type} (ops : List (ROp T Dy)) : List (Op T) := ops.map (ROp.toOp (Dy.scale (maxExp ops)))
 
 /-! ## specification: live tasks with their priority, in order of (re-)insertion -/
 
